@@ -136,12 +136,15 @@ def checksig(
     verify_witness_pubkeytype: bool,
     verify_strict: bool,
 ) -> bool:
-    generator = vm.generator_for_signature_type(signature_type)
     if verify_strict:
         check_public_key_encoding(pair_blob)
     if verify_witness_pubkeytype:
-        if pair_blob[0] not in (2, 3) or len(pair_blob) != 33:
+        if len(pair_blob) != 33 or pair_blob[0] not in (2, 3):
             raise ScriptError("uncompressed key in witness", errno.WITNESS_PUBKEYTYPE)
+    if sig_pair is None:
+        # an empty or unparsable signature verifies for no key
+        return False
+    generator = vm.generator_for_signature_type(signature_type)
     try:
         public_pair = sec_to_public_pair(pair_blob, generator, strict=verify_strict)
     except (ValueError, EncodingError):
@@ -175,7 +178,8 @@ def checksigs(vm: Any, sig_blobs: list[bytes], public_pair_blobs: list[bytes]) -
                 sig_blob, flags, vm
             )
         except (der.UnexpectedDER, ValueError):
-            public_pair_blobs = []
+            # the public keys it is compared with are still subject to the encoding rules
+            sig_pair, signature_type = None, 0  # type: ignore[assignment]
         while len(sig_blobs_remaining) < len(public_pair_blobs):
             pair_blob = public_pair_blobs.pop()
             if checksig(
